@@ -3,7 +3,8 @@
  * genc.c (gc0InitSpecialChars, gc0ValidIdInBuf, gc0IdHashInBuf; file-local, so genc.c is #included).
  *   h_mangle_inj : without a length limit, two different names (printable ASCII) never mangle to the same text
  *   h_mangle_len : with a length limit L >= 1 the mangled text never exceeds L characters
- *   h_mangle_safe: every byte value in a name is handled without an out-of-bounds table access
+ *   h_mangle_safe: every byte value in a name is handled without an out-of-bounds table access and the text produced
+ *                  consists of C identifier characters only
  */
 #include "genc.c"
 #include "buffer.c"
@@ -12,6 +13,15 @@
 #ifndef NLEN
 #define NLEN 3
 #endif
+/* bufAddn copies the replacement text with memmove; CBMC's built-in model of memmove with a symbolic source string and length
+ * produced counterexamples that do not reproduce natively, so the (short) copy is spelled out */
+void *memmove(void *d, const void *s, size_t n)
+{
+	size_t i;
+	for (i = 0; i < 12; i++) if (i < n) ((char *) d)[i] = ((const char *) s)[i];
+	V_ASSERT(n <= 12, "harness memmove model: replacement texts are at most 12 characters");
+	return d;
+}
 static UByte v_o1[60], v_o2[60];
 static struct buffer v_b1, v_b2;
 static Buffer mk(struct buffer *b, UByte *mem) { b->argv = mem; b->argc = 60; b->pos = 0; return b; }
@@ -59,4 +69,13 @@ V_ENTRY(h_mangle_safe, unsigned char a[NLEN];)
 	genCSetIdLen(0);
 	la = gc0ValidIdInBuf(mk(&v_b1, v_o1), sa);
 	V_ASSERT(la >= 0 && la <= 8 * NLEN, "mangled length within bound for arbitrary bytes");
+	{	/* whatever the name bytes are, the text must consist of C identifier characters only */
+		int i, ok = 1;
+		for (i = 0; i < 8 * NLEN; i++) if (i < la) {
+			UByte c = v_o1[i];
+			if (!((c >= 'A' && c <= 'Z') || (c >= 'a' && c <= 'z') || (c >= '0' && c <= '9') || c == '_')) ok = 0;
+		}
+		V_ASSERT(ok, "mangled name consists of C identifier characters only");
+		V_ASSERT(v_o1[la] == 0, "mangled name is NUL-terminated");
+	}
 }
